@@ -336,10 +336,11 @@ func v13EnvFor(validate, withState bool, workers int64, buffer int64) *vEnv {
 	return env
 }
 
-// VerifStoreSyncMsg: one notification with at most one delete and at most one
-// update, written by storeSyncMsg into an arbitrary mirror.
+// VerifStoreSyncMsg: one notification with up to ndel deletes (any order; with a
+// state leaf in the universe a state path may precede or follow a config path) and
+// up to nupd updates, written by storeSyncMsg into an arbitrary mirror.
 //
-// params: validate (0/1), state (0/1: universe has a state leaf that the update may name).
+// params: validate (0/1), state (0/1: universe has a state leaf that updates and deletes may name), ndel, nupd.
 func VerifStoreSyncMsg() {
 	validate := verifrt.Param("validate", 1) == 1
 	// without validation the code does not look at the schema: every leaf is
@@ -354,7 +355,25 @@ func VerifStoreSyncMsg() {
 	var msgs []*v13Msg
 	notif := &sdcpb.Notification{}
 	dels := v13Deletable(sc)
-	if d := verifrt.Choice("del", len(dels)+1); d > 0 {
+	if withState {
+		// the device may also report the state leaf as deleted
+		dels = append(dels, m.state.path())
+	}
+	// up to `ndel` deletes in one notification, in any order (a state path may come
+	// before or after a config path), and up to `nupd` updates
+	ndel := verifrt.Param("ndel", 1)
+	firstDel := 0
+	for k := 0; k < ndel; k++ {
+		d := verifrt.Choice("del"+string(rune('0'+k)), len(dels)+1)
+		if d == 0 {
+			break
+		}
+		if k > 0 && d == firstDel {
+			break // the same path twice adds nothing
+		}
+		if k == 0 {
+			firstDel = d
+		}
 		p := dels[d-1]
 		notif.Delete = append(notif.Delete, p)
 		msgs = append(msgs, &v13Msg{kind: v13Delete, del: p, delID: vPathID(p)})
@@ -363,9 +382,21 @@ func VerifStoreSyncMsg() {
 	if withState {
 		updatable = append(updatable, m.state)
 	}
-	if u := verifrt.Choice("upd", len(updatable)+1); u > 0 {
+	nupd := verifrt.Param("nupd", 1)
+	firstUpd := 0
+	for k := 0; k < nupd; k++ {
+		u := verifrt.Choice("upd"+string(rune('0'+k)), len(updatable)+1)
+		if u == 0 {
+			break
+		}
+		if k > 0 && u <= firstUpd {
+			break // unordered pairs of distinct leaves
+		}
+		if k == 0 {
+			firstUpd = u
+		}
 		l := updatable[u-1]
-		v := l.newVal("updval")
+		v := l.newVal("updval" + string(rune('0'+k)))
 		notif.Update = append(notif.Update, &sdcpb.Update{Path: l.path(), Value: l.tv(v)})
 		msgs = append(msgs, &v13Msg{kind: v13Update, leaf: l, val: v})
 	}
